@@ -117,7 +117,11 @@ Step ==
        [] r.ev = "end" ->
             LET missTx == {i \in 1..Len(acc) : acc[i].total + 20 <= cfg.fragbuf /\ acc[i].did \notin done}
                 f5 == IF r.how = "quiescent" /\ missTx # {} THEN << <<l, "F5", acc[CHOOSE i \in missTx : TRUE].did, Cardinality(missTx)>> >> ELSE <<>>
-                udp == {acc[i].did : i \in {j \in 1..Len(acc) : acc[j].kind = "udp"}}
+                \* (echo requests are datagrams like any other: the receiver's ICMP socket is handed a copy -- judged when the
+                \*  run has a single one of them, or a socket buffer that holds one message could have refused the second)
+                \* (... and only those A sent: what station C sends arrives at A, whose device may be holding frames back)
+                icmpDue == due \cap {acc[i].did : i \in {j \in 1..Len(acc) : acc[j].kind = "icmp" /\ acc[j].did < 900000}}
+                udp == {acc[i].did : i \in {j \in 1..Len(acc) : acc[j].kind = "udp"}} \cup (IF Cardinality(icmpDue) = 1 THEN icmpDue ELSE {})
                 missRx == (due \cap udp) \ got
                 f4 == IF missRx # {} THEN << <<l, "F4", CHOOSE d \in missRx : TRUE, Cardinality(missRx)>> >> ELSE <<>>
             IN /\ viol' = AddAll(viol, f5 \o f4)
